@@ -39,7 +39,6 @@ def isMapped : TraitType → Bool
   | .map .. => true
   | .mapH .. => true
   | .prefixMap .. => true
-  | .noFast t => isMapped t
   | _ => false
 
 variable (E : Env)
